@@ -68,7 +68,7 @@ class UdpClient(object):
         """
         self.temp_connection_timeout = timeout
         if self.conn:
-            self.conn.temp_connection_timeout = interval
+            self.conn.temp_connection_timeout = timeout
 
     def setMessageTimeout(self, timeout):
         """ configure the timeout for waiting for the ack for a datagram
@@ -77,7 +77,7 @@ class UdpClient(object):
         """
         self.outgoing_timeout = timeout
         if self.conn:
-            self.conn.outgoing_timeout = interval
+            self.conn.outgoing_timeout = timeout
 
     def connect(self, addr, callback: Callable[[bool], None]=None):
         """ connect to a udp socket server
